@@ -243,6 +243,10 @@ func initIntrinsics() {
 			vc.assume(st, p.Forall([]*Term{i}, p.Implies(p.Not(inR(i)), p.Eq(p.Select(newIn, i), p.Select(oldIn, i)))))
 			vc.assume(st, p.Forall([]*Term{i}, p.Implies(inR(i), p.Exists([]*Term{j}, p.And(inR(j), p.Eq(p.Select(newIn, i), p.Select(oldIn, j)))))))
 			vc.assume(st, p.Forall([]*Term{i}, p.Implies(inR(i), p.Exists([]*Term{j}, p.And(inR(j), p.Eq(p.Select(oldIn, i), p.Select(newIn, j)))))))
+			// membership is preserved (same elements)
+			vc.qSeq++
+			a := p.Var(fmt.Sprintf("m?%d", vc.qSeq), SInt)
+			vc.assume(st, p.Forall([]*Term{a}, p.Eq(p.App("inlist", SBool, newIn, s.Off, s.Len, a), p.App("inlist", SBool, oldIn, s.Off, s.Len, a))))
 			vc.heapSet(st, key, p.Ite(p.Eq(s.Len, p.Int(0)), m, p.Store(m, s.Arr, newIn)))
 			vc.written[key] = true
 			return Val{K: VStruct}
